@@ -635,13 +635,13 @@ open WV.C06 in
 of even length with tree a the time reverse of tree b (ANY values), every image `x` whose sides are positive
 multiples of 4, every low-pass cotangent `dl` and every six complex band cotangents,
 `⟨fwd_j2plus x, (dl, dh)⟩ = ⟨x, backward(dl, dh)⟩`. -/
-theorem fwdJ2_backward_adjoint (s : R) (h0 h1 : List R) (hm0 : h0.length % 2 = 0) (hm0' : 2 ≤ h0.length)
+theorem fwdJ2_backward_adjoint_rect (s : R) (h0 h1 : List R) (hm0 : h0.length % 2 = 0) (hm0' : 2 ≤ h0.length)
     (hm1 : h1.length % 2 = 0) (hm1' : 2 ≤ h1.length) (x dl : Img R) (H W : Nat) (hH : 1 ≤ H) (hW : 1 ≤ W)
     (hx : Rect x (4*H) (4*W)) (hdl : Rect dl (2*H) (2*W)) (a b : Nat → Nat → Nat → R) :
     let dh : List (Cplx R) := (List.range 6).map fun k => (tab2 H W (a k), tab2 H W (b k))
     ∃ ll hs y,
       fwdJ2 s (prepFilt h0.reverse) (prepFilt h1.reverse) (prepFilt h0) (prepFilt h1) false x = some (ll, some hs) ∧
-      FWD_J2PLUS_backward s (prepFilt h0.reverse) (prepFilt h1.reverse) (prepFilt h0) (prepFilt h1) dl (some dh) = some y ∧
+      FWD_J2PLUS_backward s (prepFilt h0.reverse) (prepFilt h1.reverse) (prepFilt h0) (prepFilt h1) dl (some dh) = some y ∧ Rect y (4*H) (4*W) ∧ Rect ll (2*H) (2*W) ∧
       dot2 (2*H) (2*W) ll dl
         + ∑ k ∈ range 6, (dot2 H W (hs.getD k ([], [])).1 (dh.getD k ([], [])).1
                           + dot2 H W (hs.getD k ([], [])).2 (dh.getD k ([], [])).2)
@@ -716,8 +716,6 @@ theorem fwdJ2_backward_adjoint (s : R) (h0 h1 : List R) (hm0 : h0.length % 2 = 0
     simp only [Option.bind_some]
     rw [rowifilt_model' h1 true hm1 hm1' HI W hW rHI.2, rowifilt_model' h0 false hm0 hm0' LO W hW rLO.2]
     simp only [Option.bind_some]
-  refine ⟨ll, highsToOrientations s lh hl hh, _, hF, hB, ?_⟩
-  -- right-hand side: move every stage across the inner product
   have e44 : 2*(2*H) = 4*H := by ring
   have e4W : 2*(2*W) = 4*W := by ring
   have rHI4 : Rect HI (4*H) (2*W) := by rw [← e44]; exact rHI
@@ -726,6 +724,8 @@ theorem fwdJ2_backward_adjoint (s : R) (h0 h1 : List R) (hm0 : h0.length % 2 = 0
     rw [← e4W]; exact Ei_alongW_rect h1.reverse true HI _ _ rHI4
   have wLO : Rect (alongW (Ei h0.reverse false) LO) (4*H) (4*W) := by
     rw [← e4W]; exact Ei_alongW_rect h0.reverse false LO _ _ rLO4
+  refine ⟨ll, highsToOrientations s lh hl hh, _, hF, hB, iadd_rect _ _ _ _ wHI wLO, rll, ?_⟩
+  -- right-hand side: move every stage across the inner product
   rw [dot2_iadd _ _ x _ _ wHI wLO]
   rw [← alongW_DE_adjoint h1 true hm1 hm1' x HI (4*H) W hx rHI4 hW, ← hhi]
   rw [← alongW_DE_adjoint h0 false hm0 hm0' x LO (4*H) W hx rLO4 hW, ← hlo]
@@ -750,6 +750,22 @@ theorem fwdJ2_backward_adjoint (s : R) (h0 h1 : List R) (hm0 : h0.length % 2 = 0
   rw [← k1, ← k2, ← k3]
   simp [highsToOrientations, dh, Finset.sum_range_succ, List.range, List.range.loop]
   ring
+
+open WV.C06 in
+theorem fwdJ2_backward_adjoint (s : R) (h0 h1 : List R) (hm0 : h0.length % 2 = 0) (hm0' : 2 ≤ h0.length)
+    (hm1 : h1.length % 2 = 0) (hm1' : 2 ≤ h1.length) (x dl : Img R) (H W : Nat) (hH : 1 ≤ H) (hW : 1 ≤ W)
+    (hx : Rect x (4*H) (4*W)) (hdl : Rect dl (2*H) (2*W)) (a b : Nat → Nat → Nat → R) :
+    let dh : List (Cplx R) := (List.range 6).map fun k => (tab2 H W (a k), tab2 H W (b k))
+    ∃ ll hs y,
+      fwdJ2 s (prepFilt h0.reverse) (prepFilt h1.reverse) (prepFilt h0) (prepFilt h1) false x = some (ll, some hs) ∧
+      FWD_J2PLUS_backward s (prepFilt h0.reverse) (prepFilt h1.reverse) (prepFilt h0) (prepFilt h1) dl (some dh) = some y ∧
+      dot2 (2*H) (2*W) ll dl
+        + ∑ k ∈ range 6, (dot2 H W (hs.getD k ([], [])).1 (dh.getD k ([], [])).1
+                          + dot2 H W (hs.getD k ([], [])).2 (dh.getD k ([], [])).2)
+        = dot2 (4*H) (4*W) x y := by
+  intro dh
+  obtain ⟨ll, hs, y, h1, h2, _, _, h3⟩ := fwdJ2_backward_adjoint_rect s h0 h1 hm0 hm0' hm1 hm1' x dl H W hH hW hx hdl a b
+  exact ⟨ll, hs, y, h1, h2, h3⟩
 
 open WV.C06 in
 /-- **`INV_J2PLUS.backward` is the adjoint of `inv_j2plus`** (both inputs requiring grad): it runs `fwd_j2plus` with the
